@@ -66,21 +66,6 @@ func parseToks(ws []string) []string {
 	return strings.Fields(s)
 }
 
-// risky reports whether executing op may recurse without bound (an iterator standing on a deleted
-// node of a list that has become empty): such ops are first tried in a child process.
-func (s *state) risky(op string) bool {
-	ws := strings.Fields(op)
-	switch ws[0] {
-	case "next", "adv":
-		it := s.iters[atoi(ws[1])]
-		return it.OnDeletedNode() && s.t.Empty()
-	case "xnext", "xadv":
-		it := s.xiters[atoi(ws[1])]
-		return search.VerifIterOnDeletedNode(it) && search.VerifIterListEmpty(it)
-	}
-	return false
-}
-
 func (s *state) exec(op string) string {
 	return hx.Recover(func() string {
 		ws := strings.Fields(op)
@@ -172,33 +157,25 @@ func (s *state) exec(op string) string {
 
 // ---- guard process -------------------------------------------------------------------------------
 //
-// A fatal stack overflow cannot be recovered in-process, so an op that may recurse without bound is
-// first replayed (with the case's history) in a second process. Spawning one process per op is slow
-// here (~0.3 s), so one long-lived guard serves all requests: a request is one line of tab-separated
-// ops, the reply one line with the last op's answer. If the guard dies the answer is `crash`, if it
-// does not reply in time it is killed and the answer is `hang`; it is respawned on the next request.
+// A fatal stack overflow cannot be recovered in-process and a pointer walk over a damaged structure
+// may never return, so every op is first performed by a second process that mirrors the case's
+// state (one long-lived process; a request is one line — `RESET` or an op text — the reply one line
+// with the answer). If the guard dies the answer is `crash`, if it does not reply in time it is
+// killed and the answer is `hang`; the case ends there and a new guard is started for the next one.
+// Only when the guard has answered does the harness perform the op on its own copy.
 
 type guardProc struct {
 	cmd     *exec.Cmd
 	in      *bufio.Writer
 	out     chan string
+	timer   *time.Timer
 	crashes int
 }
 
 const maxCrashes = 6
+const guardTimeout = 20 * time.Second
 
 var guard guardProc
-
-func replayOps(ops []string) string {
-	s := newState()
-	ans := ""
-	for _, op := range ops {
-		if strings.TrimSpace(op) != "" {
-			ans = s.exec(op)
-		}
-	}
-	return ans
-}
 
 func guardServe() {
 	// the real recursion depth here is a few frames; a small limit turns a runaway recursion into
@@ -206,10 +183,24 @@ func guardServe() {
 	debug.SetMaxStack(16 << 20)
 	rd := bufio.NewReaderSize(os.Stdin, 1<<20)
 	w := bufio.NewWriter(os.Stdout)
+	s := newState()
 	for {
 		line, err := rd.ReadString('\n')
-		if line != "" {
-			fmt.Fprintf(w, "R %s\n", replayOps(strings.Split(strings.TrimRight(line, "\n"), "\t")))
+		line = strings.TrimRight(line, "\n")
+		if line == "RESET" {
+			s = newState()
+			fmt.Fprint(w, "R ok\n")
+			w.Flush()
+		} else if strings.HasPrefix(line, "BATCH\t") {
+			// a whole fixed history on a fresh state; only success matters to the caller
+			b := newState()
+			for _, op := range strings.Split(line, "\t")[1:] {
+				b.exec(op)
+			}
+			fmt.Fprint(w, "R ok\n")
+			w.Flush()
+		} else if line != "" {
+			fmt.Fprintf(w, "R %s\n", s.exec(line))
 			w.Flush()
 		}
 		if err != nil {
@@ -226,7 +217,7 @@ func (g *guardProc) stop() {
 	}
 }
 
-func (g *guardProc) replay(ops []string) string {
+func (g *guardProc) call(line string) string {
 	if g.cmd == nil {
 		self, _ := os.Executable()
 		cmd := exec.Command(self)
@@ -249,16 +240,27 @@ func (g *guardProc) replay(ops []string) string {
 			close(out)
 		}()
 	}
-	fmt.Fprintf(g.in, "%s\n", strings.Join(ops, "\t"))
+	fmt.Fprintf(g.in, "%s\n", line)
 	g.in.Flush()
+	if g.timer == nil {
+		g.timer = time.NewTimer(guardTimeout)
+	} else {
+		g.timer.Reset(guardTimeout)
+	}
 	select {
 	case ans, ok := <-g.out:
+		if !g.timer.Stop() {
+			select {
+			case <-g.timer.C:
+			default:
+			}
+		}
 		if !ok {
 			g.stop()
 			return "crash"
 		}
 		return ans
-	case <-time.After(60 * time.Second):
+	case <-g.timer.C:
 		g.stop()
 		return "hang"
 	}
@@ -269,7 +271,6 @@ func (g *guardProc) replay(ops []string) string {
 type run struct {
 	c       *hx.Ctx
 	s       *state
-	history []string
 	present map[int]bool            // treeList contents (for choosing targets only)
 	xpres   map[string]map[int]bool // TreeIndex contents
 	gen     int
@@ -279,10 +280,21 @@ type run struct {
 }
 
 func newRun(c *hx.Ctx) *run {
+	if guard.crashes < maxCrashes {
+		guard.call("RESET")
+	}
+	return newRunNoReset(c)
+}
+
+func newRunNoReset(c *hx.Ctx) *run {
 	return &run{c: c, s: newState(), present: map[int]bool{}, xpres: map[string]map[int]bool{}}
 }
 
-func (r *run) do(op string) string {
+func (r *run) do(op string) string { return r.doWith(op, true) }
+
+// doWith performs one op; guarded=false only after the guard has already survived the same fixed
+// history (exhaustive cases).
+func (r *run) doWith(op string, guarded bool) string {
 	if r.dead {
 		return ""
 	}
@@ -310,27 +322,30 @@ func (r *run) do(op string) string {
 			r.c.Note("xiter:on-deleted")
 		}
 	}
-	var ans string
-	if r.s.risky(op) {
-		if guard.crashes >= maxCrashes {
-			// the violation has been recorded maxCrashes times already; every further crash costs a
-			// process start, so the case ends here instead
-			r.c.Comment("risky op not executed: " + op)
-			r.c.Note("risky:skipped")
-			r.dead = true
-			return ""
-		}
-		r.c.Note("risky:child")
-		ans = guard.replay(append(append([]string{}, r.history...), op))
-		if ans == "crash" || ans == "hang" {
-			guard.crashes++
-			r.c.Op(op, ans)
-			r.dead = true
-			return ans
-		}
+	if guard.crashes >= maxCrashes {
+		// the violation has been recorded maxCrashes times; each further one costs a process start
+		// (and a hang its timeout), so nothing more is executed in this run
+		r.dead = true
+		r.c.Note("skipped-after-crashes")
+		return ""
 	}
-	ans = r.s.exec(op)
-	r.history = append(r.history, op)
+	ans := ""
+	if guarded {
+		ans = guard.call(op)
+	}
+	if ans == "crash" || ans == "hang" {
+		guard.crashes++
+		r.c.Note("guard:" + ans)
+		r.c.Op(op, ans)
+		r.dead = true
+		return ans
+	}
+	if own := r.s.exec(op); own != ans {
+		if guarded {
+			r.c.Note("guard:answer-differs")
+		}
+		ans = own
+	}
 	r.c.Op(op, ans)
 	r.c.Note("op:" + ws[0])
 	if ans == "panic" || strings.Contains(ans, "par=0") || strings.Contains(ans, "ok=0") || ans == "hang" {
@@ -391,9 +406,11 @@ func (r *run) pickPresent(rd *hx.Rand, space int) int {
 	return ks[rd.Intn(len(ks))]
 }
 
-func (r *run) finish() {
+func (r *run) finish() { r.finishWith(true) }
+
+func (r *run) finishWith(guarded bool) {
 	if !r.dead {
-		r.do("drain")
+		r.doWith("drain", guarded)
 	}
 	r.c.Note(fmt.Sprintf("final-size:%s", bucket(len(r.present))))
 	if r.twoKid || r.onDel {
@@ -596,35 +613,49 @@ func exhCount() int {
 }
 
 func exhaustiveCase(c *hx.Ctx, no int) {
-	r := newRun(c)
+	r := newRunNoReset(c)
 	c.Note("mode:exhaustive")
+	var ops []string
+	gen := 0
+	ins := func(k int) { gen++; ops = append(ops, fmt.Sprintf("ins %d %d", k, gen)) }
 	switch no % 3 { // three starting lists: empty, one value, three values
 	case 1:
-		r.ins(1)
+		ins(1)
 	case 2:
-		r.ins(1)
-		r.ins(2)
-		r.ins(0)
+		ins(1)
+		ins(2)
+		ins(0)
 	}
 	no /= 3
-	r.do("begin")
-	for i := 0; i < exhLen && !r.dead; i++ {
+	ops = append(ops, "begin")
+	for i := 0; i < exhLen; i++ {
 		sym := no % 11
 		no /= 11
 		switch {
 		case sym < 4:
-			r.ins(sym)
+			ins(sym)
 		case sym < 8:
-			r.del(sym - 4)
+			ops = append(ops, fmt.Sprintf("del %d", sym-4))
 		case sym == 8:
-			r.do("next 0")
+			ops = append(ops, "next 0")
 		case sym == 9:
-			r.do("adv 0 1")
+			ops = append(ops, "adv 0 1")
 		default:
-			r.do("adv 0 3")
+			ops = append(ops, "adv 0 3")
 		}
 	}
-	r.finish()
+	// the history is fixed in advance: let the guard run all of it in one request; only if that
+	// fails is it replayed op by op (to find the op that crashes or hangs)
+	guarded := true
+	if guard.crashes < maxCrashes && guard.call("BATCH\t"+strings.Join(ops, "\t")+"\tdrain") == "ok" {
+		guarded = false
+	} else if guard.crashes < maxCrashes {
+		guard.call("RESET")
+	}
+	for _, op := range ops {
+		r.doWith(op, guarded)
+	}
+	r.finishWith(guarded)
 }
 
 func tok(n int) string { return fmt.Sprintf("t%02d", n) }
@@ -757,10 +788,10 @@ func main() {
 	}
 	defer guard.stop()
 	hx.Main(hx.Family{
-		Name: "c07",
-		Rule: "edit histories (insert / delete / re-insert, payload = a per-case counter) on a real treeList over key spaces 4..16 (thorough: ..64) with up to 4 open iterators stepped by Next/Advance between the edits; 10 shapes: general mix, monotone build + deletes from the ends, full tree + mostly inner deletions, iterator chasing (delete / re-insert exactly the key under the iterator, empty the list under it), tiny lists emptied and refilled, grow-shrink-grow; one case in five is a TreeIndex history (Add/Remove with 1..3 tokens, iterators from Begin(token)); thorough also enumerates every history of length 5 over {ins 0..3, del 0..3, next, adv 1, adv 3} from three starting lists with one open iterator. non-trivial = the history deletes a node with two children or calls an iterator standing on a deleted node; distinct = by hash of the op text",
+		Name:     "c07",
+		Rule:     "edit histories (insert / delete / re-insert, payload = a per-case counter) on a real treeList over key spaces 4..16 (thorough: ..64) with up to 4 open iterators stepped by Next/Advance between the edits; 10 shapes: general mix, monotone build + deletes from the ends, full tree + mostly inner deletions, iterator chasing (delete / re-insert exactly the key under the iterator, empty the list under it), tiny lists emptied and refilled, grow-shrink-grow; one case in five is a TreeIndex history (Add/Remove with 1..3 tokens, iterators from Begin(token)); thorough also enumerates every history of length 5 over {ins 0..3, del 0..3, next, adv 1, adv 3} from three starting lists with one open iterator. non-trivial = the history deletes a node with two children or calls an iterator standing on a deleted node; distinct = by hash of the op text",
 		Quick:    2500,
-		Thorough: exhCount() + 12000,
+		Thorough: exhCount() + 8000,
 		Corpus:   corpus,
 		Case: func(c *hx.Ctx) {
 			if c.Thorough() && c.CaseNo < exhCount() {
